@@ -48,6 +48,24 @@ def gen_histories(d, n, hlen, steps, seed, quick):
     return out, r
 
 
+def butt_histories():
+    """a shape that arrives between two touching neighbours (their corners lie inside its vertical sides): added in a later transaction,
+    moved into place, resized into place, with transactions on and off.  Hand-written, but validated like every other history: the
+    trace validation against RouterApi rejects a call sequence that is not a behaviour of the specification."""
+    A, B, C = [2, 2, 6, 6], [6, 0, 8, 10], [8, 2, 12, 6]          # the way round B below is longer than the line between the corners at y = 6
+    out = []
+    for first, second in ((1, 2), (2, 1)):
+        # connector 1 from the left of A to the right of C: its taut route runs along the lower sides of A and C, i.e. through where B will be
+        base = [[4, 1, 0, 1, 5], [4, 1, 1, 13, 5], [1, first] + A, [1, second] + C, [5]]
+        out.append(base + [[1, 3] + B, [5]])
+        out.append(base + [[1, 3] + [6, 10, 8, 18], [5], [2, 3, 0, -10], [5]])                  # moved into place
+        out.append(base + [[1, 3] + [6, 0, 8, 1], [5], [7, 3] + B, [5]])                        # resized into place
+        out.append(base + [[6, 0], [1, 3] + B, [6, 1], [5]])                                    # transactions off for the add
+        out.append(base + [[1, 3] + B, [5], [3, 3], [5], [1, 3] + B, [5]])                      # removed and added again
+        out.append([[4, 1, 0, 1, 5], [4, 1, 1, 13, 5], [1, 3] + B, [5], [1, first] + A, [1, second] + C, [5], [2, 3, 0, 12], [5], [2, 3, 0, -12], [5]])   # away and back
+    return out
+
+
 def trace_lines(h, res):
     lines = [{'e': 'Reset'}]
     stepat = {s['op']: s for s in res['steps']}
@@ -93,12 +111,16 @@ def main(tier):
     hists, rg = gen_histories(d, nh, 18, 9, V.seed(), quick)
     ev.add_tlc('history generation (simulation of RouterApiMC)', rg)
     rnd = random.Random(V.seed())
+    nsim = len(hists)
+    hists = hists + butt_histories() * 2
     hf = os.path.join(d, 'hists.txt')
     cfgs = []
     with open(hf, 'w') as f:
-        for h in hists:
+        for hi_, h in enumerate(hists):
             mode = rnd.randint(0, 1)
             P = rnd.choice([0, 0, 3, 10]) if mode == 0 else rnd.choice([1, 10])
+            if hi_ >= nsim:            # the butted-shape histories: polyline, once without and once with a segment penalty
+                mode, P = 0, (0 if (hi_ - nsim) < len(butt_histories()) else 10)
             nconn = 1 if any(o[0] == 4 and o[1] == 2 for o in h) is False and rnd.random() < 0.5 else 2
             cfgs.append((mode, P, nconn))
             flat = [x for o in h for x in o]
@@ -153,7 +175,7 @@ def main(tier):
             x = recs[i - 1]
             scene = [[[p[0] // LS, p[1] // LS] for p in sh] for sh in x['polys']]
             key = 'inc:' + t + (':polyline' if x['mode'] == 0 else ':orthogonal')
-            if t.startswith('through-shape:crossing-only-at-shape-vertices') and x['mode'] == 0:    # scene order here is the router's list, not insertion order
+            if t.startswith('through-shape:crossing-only-at-shape-vertices') and not t.endswith('inside-its-vertical-sides') and x['mode'] == 0:    # scene order here is the router's list, not insertion order
                 key = 'visibility:touching-shapes:segment-crosses-boundary-only-at-shape-vertices'
             if t == 'through-shape:via-two-of-its-vertices' and x['mode'] == 0:
                 key = 'visibility:segment-through-two-collinear-shape-vertices'
